@@ -219,6 +219,31 @@ def gen_c07(rnd, n, thorough=False):
         for s in rnd.sample(['average', 'sum', 'last', 'max', 'min', 'first', 'mix', 'percentile', '', 'Average'], 3):
             add('flagmeth', 'flagmeth %s' % S(s))
         cases.append({'id': 'c07-%d' % c, 'lines': lines, 'tags': tags})
+    # small-scope exhaustive sweep: EVERY two-archive list with steps and counts in a small range
+    # (zero, equal, non-dividing, one point too few, equal retentions ... all occur), through
+    # NewHeader, the header decoder and the retention parser; xFilesFactor: every 2^k-spaced and
+    # boundary bit pattern
+    vals = [0, 1, 2, 3, 4, 6] if not thorough else [0, 1, 2, 3, 4, 5, 6, 8, 12]
+    chunk, lines = 0, []
+    for s1 in vals:
+        for n1 in vals:
+            for s2 in vals:
+                for n2 in vals:
+                    layout = [(s1, n1), (s2, n2)]
+                    lay = '%d %d %d %d' % (s1, n1, s2, n2)
+                    lines.append('enc header 2 3f000000 2 %s' % lay)
+                    lines.append('dec header %s' % hx(enc_header_py(2, 0x3f000000, layout)))
+                    if s1 > 0 and n1 > 0 and s2 > 0 and n2 > 0:
+                        lines.append('plist %s' % S('%ds:%ds,%ds:%ds' % (s1, s1 * n1, s2, s2 * n2)))
+                    if len(lines) > 1500:
+                        cases.append({'id': 'c07-sweep%d' % chunk, 'lines': lines, 'tags': {'rules': {'exhaustive_pairs': len(lines)}, 'ops': {}}})
+                        chunk, lines = chunk + 1, []
+    xffs = [0, 1, 0x80000000, 0x80000001, 0x3f800000, 0x3f800001, 0x3f7fffff, 0x7f800000, 0x7f800001, 0x7fc00000, 0xff800000, 0xffc00000, 0xbf800000, 0x00800000, 0x007fffff]
+    xffs += [1 << k for k in range(32)] + [(1 << k) - 1 for k in range(1, 33)]
+    for x in sorted(set(xffs)):
+        lines.append('enc header 1 %08x 1 1 2' % x)
+        lines.append('dec header %s' % hx(enc_header_py(1, x, [(1, 2)])))
+    cases.append({'id': 'c07-sweep%d' % chunk, 'lines': lines, 'tags': {'rules': {'exhaustive_pairs': len(lines)}, 'ops': {}}})
     return cases
 
 
